@@ -26,6 +26,7 @@ NEXTTOTAL = "OrqModel.Properties.NextTotal"
 TRUTH = "OrqModel.Properties.Truth"
 ANCESTRY = "OrqModel.Properties.Ancestry"
 FRAME = "OrqModel.Properties.Frame"
+EDGES = "OrqModel.Properties.Edges"
 
 TRUSTED = [
     "Lean 4.33 kernel (thorough tier: re-checked by leanchecker)",
@@ -44,10 +45,11 @@ PROPS = {
         theorems={NEXT: ["C01_offer_from_staged", "C01_no_offer_unless_running_or_remediation"], JOIN: ["C07_ready_iff_satisfied"], HISTORY: ["C18_record_core_fixed"],
                   STATUS: ["tbl_succeeded_doors_task", "C03_fresh_start_statuses"],
                   JUSTIFIED: ["C01_offers_have_completed_predecessors", "C01_predecessors_completed_and_decided"],
-                  TRUTH: ["C01_offers_have_true_transitions", "C01_predecessors_decided_true", "C01_task_map_sound"]},
+                  TRUTH: ["C01_offers_have_true_transitions", "C01_predecessors_decided_true", "C01_task_map_sound"],
+                  EDGES: ["C01_offers_justified_by_the_definition", "C01_decisions_follow_graph_edges"]},
         keys=["status", "sequence", "staged", "tasks"], offers="ids",
         prof=dict(p_items=0.0, p_retry=0.0, p_badexpr=0.0, p_join=0.9, p_join_count=0.1, p_loop=0.05, p_parallel_edge=0.05, p_cond_ctx=0.3, p_template=0.3, templates=[7, 7, 0, 5, 6]), hist=dict(p_fail=0.3, fixed_outcomes=True, p_lazy_start=0.25, p_pause=0.25, p_early_resume=0.6),
-        monitor="C01", unproven=["global multiset equality with the prescribed executions (exactly-once per justification, C01_global): search only; proved along every history: every listed predecessor is a completed record that recorded true for the transition to the offered task"],
+        monitor="C01", unproven=["global multiset equality with the prescribed executions (exactly-once per justification, C01_global): search only; proved along every history: every predecessor an offer names is a completed record of a task s that recorded true for an edge s -> offered task of the graph composed from the definition"],
     ),
     "C02": dict(
         title="reported workflow status is truthful",
